@@ -243,6 +243,44 @@ def oracle_copy(case):
         if changed or d2:
             viol.append({'prop': PROP, 'kind': 'editing-the-host-changed-the-guest', 'step': None,
                          'detail': d2 or {'renamed_in_host': X}})
+    # a partial copy: a sub-tree of the guest that no transition enters or leaves is plugged into
+    # a host whose root has the same name as the guest's root; exactly the sub-tree's own
+    # transitions arrive in the host
+    if not viol and 'slot' not in gnames:
+        for cand in spec['states']:
+            S = cand['name']
+            if S == R or cand['kind'] in ('shallow', 'deep', 'final'):
+                continue
+            sub = tree.desc_or_self(S)
+            closed = all((t['source'] in sub) == ((t.get('target') or t['source']) in sub)
+                         for t in spec['transitions'])
+            inner = [t for t in spec['transitions'] if t['source'] in sub]
+            outer = [t for t in spec['transitions'] if t['source'] not in sub]
+            if not closed or not outer:
+                continue
+            guest3 = to_statechart(spec)
+            host3 = Statechart('host3')
+            host3.add_state(CompoundState(R, initial='slot'), None)
+            host3.add_state(BasicState('slot'), R)
+            labels['partial copies into a host sharing the root name'] = 1
+            try:
+                host3.copy_from_statechart(guest3, source=S, replace='slot',
+                                           renaming_func=lambda n: pre + n)
+            except Exception as e:
+                viol.append({'prop': PROP, 'kind': 'copy-raised', 'step': None,
+                             'detail': {'exc': type(e).__name__, 'msg': str(e)[:200],
+                                        'partial_source': S}})
+                break
+            g = lambda n: 'slot' if n == S else pre + n  # noqa: E731
+            want_t = sorted(repr([g(t['source']), None if t.get('target') is None
+                                  else g(t['target']), t.get('event')]) for t in inner)
+            got_t = sorted(repr([t.source, t.target, t.event]) for t in host3.transitions)
+            if want_t != got_t:
+                viol.append({'prop': PROP, 'kind': 'partial-copy-transitions-differ', 'step': None,
+                             'detail': {'partial_source': S,
+                                        'unexpected': [x for x in got_t if x not in want_t][:4],
+                                        'missing': [x for x in want_t if x not in got_t][:4]}})
+            break
     fired = sum(1 for s in ref if s['result'] for m in s['result']['micro'] if m['has_t'])
     keys = [sha(case)] if fired >= 3 else []
     return {'violations': viol, 'labels': labels, 'keys': keys,
